@@ -305,3 +305,18 @@ def scope_of(fi) -> Scope:
         except AttributeError:
             pass
     return s
+
+
+def solve(root: ast.AST, patterns: list[str], b: dict[str, str] | None = None) -> tuple[list[ast.AST], dict[str, str]] | None:
+    """Nodes matching all the patterns under one consistent binding (backtracking)."""
+    def go(i: int, cur: dict[str, str], acc: list[ast.AST]):
+        if i == len(patterns):
+            return acc, cur
+        for n, nb in find_all(root, patterns[i], cur):
+            if any(n is x for x in acc):
+                continue
+            r = go(i + 1, nb, acc + [n])
+            if r is not None:
+                return r
+        return None
+    return go(0, dict(b or {}), [])
